@@ -150,7 +150,8 @@ def exact_row(specs, x):
 
 # --------------------------------------------------------------------- building objects
 
-FORMS = ["lists", "tuples", "flat", "copy", "set", "yonly"]
+FORMS = ["lists", "tuples", "flat", "copy", "set", "yonly", "x_longer", "y_longer", "flat_odd", "set_cf"]
+SURPLUS = [7.25, -3.0, 1000.0, 0.5]
 
 
 def build(form, xs, ys):
@@ -174,10 +175,25 @@ def build(form, xs, ys):
         return reused(xs, ys, degenerate_prior=(len(xs) % 2 == 0))
     if form == "yonly":
         return CurveFitting(list(ys))
+    # surplus values without a partner are dropped (documented by the examples of set(): a longer
+    # x list, an odd number of flat values; the code makes both lengths equal)
+    k = 1 + len(xs) % 3
+    if form == "x_longer":
+        return CurveFitting(list(xs) + SURPLUS[:k], list(ys))
+    if form == "y_longer":
+        return CurveFitting(tuple(xs), tuple(ys) + tuple(SURPLUS[:k]))
+    if form == "flat_odd":
+        args = []
+        for x, y in zip(xs, ys):
+            args += [x, y]
+        return CurveFitting(*(args + SURPLUS[:1]))
+    if form == "set_cf":
+        # an object already used on other data takes over the data of another object
+        return reused(xs, ys, degenerate_prior=(len(xs) % 2 == 1), through_object=True)
     raise AssertionError(form)
 
 
-def reused(xs, ys, degenerate_prior):
+def reused(xs, ys, degenerate_prior, through_object=False):
     """An object that has already been used on other data (ordinary or degenerate) and is then
     re-loaded through set(): the documented alternative to the constructor."""
     if degenerate_prior:
@@ -189,7 +205,14 @@ def reused(xs, ys, degenerate_prior):
             m()
         except ZeroDivisionError:
             pass
-    cf.set(list(xs), list(ys))
+    if through_object:
+        try:
+            cf.general_fitting(_x2, _x, _one)
+        except ZeroDivisionError:
+            pass
+        cf.set(CurveFitting(list(xs), list(ys)))
+    else:
+        cf.set(list(xs), list(ys))
     return cf
 
 
@@ -487,7 +510,12 @@ def body_degenerate(case):
     kind = case["dkind"]
     xs, ys = list(case["x"]), list(case["y"])
     # every other case goes through an object already used on ordinary data and re-loaded by set()
-    cf = reused(xs, ys, degenerate_prior=False) if len(ys) % 2 else CurveFitting(xs, ys)
+    if len(ys) % 3 == 1:
+        cf = reused(xs, ys, degenerate_prior=False)
+    elif len(ys) % 3 == 2:
+        cf = reused(xs, ys, degenerate_prior=False, through_object=True)
+    else:
+        cf = CurveFitting(xs, ys)
     if kind == "all_x_equal_linear":
         call, site = cf.linear_fitting, "CurveFitting.linear_fitting"
     elif kind in ("all_x_equal_quadratic", "two_distinct_x_quadratic"):
@@ -535,7 +563,30 @@ def _clip(v):
 
 @st.composite
 def xsets(draw, n, dyadic=False):
-    mode = draw(st.sampled_from(["wide", "mid", "unit", "cluster", "cluster", "grid"]))
+    mode = draw(st.sampled_from(["wide", "mid", "unit", "cluster", "cluster", "grid", "ints"]))
+    if mode == "ints":
+        # Python ints (documented input type): small tables of counts, and tables that look like
+        # the index set 0..n-1 of the single-sequence form without being it
+        how = draw(st.sampled_from(["any", "any", "index_like", "index_moved"]))
+        if how == "any":
+            xs = draw(st.lists(st.integers(-20, 20), min_size=n, max_size=n))
+        elif how == "index_like":
+            xs = [0] + draw(st.lists(st.integers(0, max(1, n - 1)), min_size=max(0, n - 2),
+                                     max_size=max(0, n - 2))) + [n - 1]
+            xs = xs[:n] if n >= 2 else xs
+        else:
+            xs = list(range(n))
+            if n >= 4:
+                for _ in range(draw(st.integers(1, 3))):
+                    i = draw(st.integers(1, n - 2))
+                    j = draw(st.integers(1, n - 2))
+                    if i != j and xs[j] > 0:
+                        xs[i] += 1
+                        xs[j] -= 1
+            xs = [xs[0]] + list(draw(st.permutations(xs[1:-1]))) + [xs[-1]] if n >= 3 else xs
+        if len(set(xs)) < 2:
+            xs[-1] = xs[0] + 1
+        return "ints", xs
     if mode == "wide":
         xs = draw(st.lists(rfloats(-1000, 1000), min_size=n, max_size=n))
     elif mode == "mid":
@@ -566,7 +617,8 @@ def noise_levels():
 @st.composite
 def fit_cases(draw, kind):
     n = draw(sizes())
-    form = draw(st.sampled_from(["lists", "lists", "tuples", "flat", "copy", "set", "yonly"]))
+    form = draw(st.sampled_from(["lists", "lists", "tuples", "flat", "copy", "set", "yonly", "x_longer",
+                                 "y_longer", "flat_odd", "set_cf"]))
     if form == "yonly":
         mode, xs = "grid", [float(i) for i in range(n)]
     else:
